@@ -1,4 +1,4 @@
-import Utv.Lemmas.C10Top
+import Utv.Lemmas.C10Items
 /-!
 C10 — collecting errors changes reporting only, never the verdict or the value.
 
@@ -61,6 +61,84 @@ theorem C10_accept_iff_no_report (W : World) (fuel : Nat) (decl : List FieldDecl
   cases reports (parse W fuel) .ff o decl data with
   | nil => rfl
   | cons e es => rfl
+
+/-- "item `i` fails on its own" (the declaration and the input restricted to `i` are rejected fail-fast),
+in terms of the reports of that restricted parse -/
+theorem failsAlone_iff (W : World) (fuel : Nat) (decl : List FieldDecl) (o : Opts) (data : Data) (i : String) :
+    failsAlone W fuel decl o data i =
+      (isItem decl data i && !(reports (parse W fuel) .ff o (declOf decl i) (dataOf data i)).isEmpty) := by
+  unfold failsAlone
+  rw [C10_accept_iff_no_report]
+
+/-- For a rejected input the (uncapped) collected error names exactly the failing top-level items:
+every reported error names an item that fails on its own (no valid item is reported), and every item
+that fails on its own is named by some reported error.  `hn`: field names of a declaration are distinct. -/
+theorem C10_reported_eq_failing (W : World) (fuel : Nat) (decl : List FieldDecl)
+    (hn : (decl.map (·.name)).Nodup) (o : Opts) (data : Data) (x : Exc)
+    (h : run W fuel decl ⟨true, none⟩ o data = .error x) :
+    ∃ es, x = .collected es ∧
+      (∀ e ∈ es, ∃ i, e.item = some i ∧ failsAlone W fuel decl o data i = true) ∧
+      (∀ i, failsAlone W fuel decl o data i = true → ∃ e ∈ es, e.item = some i) := by
+  obtain ⟨hx, _⟩ := C10_one_exception W fuel decl none trivial o data x h
+  refine ⟨_, hx, ?_, ?_⟩
+  · intro e he
+    obtain ⟨i, h1, h2, h3⟩ := reports_sound (parse W fuel) .ff o decl hn data e he
+    refine ⟨i, h1, ?_⟩
+    rw [failsAlone_iff, h2]
+    cases hr : reports (parse W fuel) .ff o (declOf decl i) (dataOf data i) with
+    | nil => exact absurd hr h3
+    | cons a as => rfl
+  · intro i hi
+    rw [failsAlone_iff] at hi
+    simp only [Bool.and_eq_true, Bool.not_eq_true', List.isEmpty_eq_false_iff] at hi
+    exact reports_complete (parse W fuel) .ff o decl hn data i hi.2
+
+/-- With `max_errors = k` the collected error carries at most `k` errors, each naming an item that
+fails on its own. -/
+theorem C10_capped_reports_failing (W : World) (fuel : Nat) (decl : List FieldDecl)
+    (hn : (decl.map (·.name)).Nodup) (k : Nat) (hk : 0 < k) (o : Opts) (data : Data) (x : Exc)
+    (h : run W fuel decl ⟨true, some k⟩ o data = .error x) :
+    ∃ es, x = .collected es ∧ es.length ≤ k ∧
+      ∀ e ∈ es, ∃ i, e.item = some i ∧ failsAlone W fuel decl o data i = true := by
+  obtain ⟨hx, _⟩ := C10_one_exception W fuel decl (some k) hk o data x h
+  refine ⟨_, hx, by simp [cap, List.length_take, Nat.min_le_left], ?_⟩
+  intro e he
+  have he' : e ∈ reports (parse W fuel) .ff o decl data := List.mem_of_mem_take he
+  obtain ⟨i, h1, h2, h3⟩ := reports_sound (parse W fuel) .ff o decl hn data e he'
+  refine ⟨i, h1, ?_⟩
+  rw [failsAlone_iff, h2]
+  cases hr : reports (parse W fuel) .ff o (declOf decl i) (dataOf data i) with
+  | nil => exact absurd hr h3
+  | cons a as => rfl
+
+/-- An input is accepted (in either mode) iff no top-level item fails on its own. -/
+theorem C10_accept_iff_none_fails (W : World) (fuel : Nat) (decl : List FieldDecl)
+    (hn : (decl.map (·.name)).Nodup) (o : Opts) (data : Data) :
+    isError (run W fuel decl .ff o data) = false ↔ ∀ i, failsAlone W fuel decl o data i = false := by
+  rw [C10_accept_iff_no_report]
+  constructor
+  · intro h i
+    cases hf : failsAlone W fuel decl o data i with
+    | false => rfl
+    | true =>
+      exfalso
+      rw [failsAlone_iff] at hf
+      simp only [Bool.and_eq_true, Bool.not_eq_true', List.isEmpty_eq_false_iff] at hf
+      obtain ⟨e, he, _⟩ := reports_complete (parse W fuel) .ff o decl hn data i hf.2
+      simp only [Bool.not_eq_false', List.isEmpty_iff] at h
+      rw [h] at he
+      cases he
+  · intro h
+    cases hr : reports (parse W fuel) .ff o decl data with
+    | nil => rfl
+    | cons e es =>
+      exfalso
+      obtain ⟨i, h1, h2, h3⟩ := reports_sound (parse W fuel) .ff o decl hn data e (by rw [hr]; exact List.mem_cons_self)
+      have := h i
+      rw [failsAlone_iff, h2] at this
+      cases hri : reports (parse W fuel) .ff o (declOf decl i) (dataOf data i) with
+      | nil => exact h3 hri
+      | cons a as => rw [hri] at this; simp at this
 
 /-! ### the code before the `fix:` commit (AllOf returned without `raise_error()`)
 
